@@ -246,6 +246,8 @@ structure Env.HoldsProblem (p : Problem K) (mat : SMat K) (cov : Cov.BlockDiag K
   rhs : p.rhs.size = p.m
   dense : ∀ i c, i < p.m → c < p.n →
     Cov.denseRow (@SMat.rowEntries K ⟨0⟩ mat (i + 1)) (c + 1) = Env.mget p.dense i c
+  /-- the stored rows of `mat` ARE the rows of `p` (same entries in the same storage order) -/
+  entries : ∀ i, i < p.m → @SMat.rowEntries K ⟨0⟩ mat (i + 1) = (p.rows.getD i #[]).toList
 
 /-- **`Hom.run` = `Env.homogenize`** -/
 theorem hom_run_eq_homogenize (hsq : IsSqrt (SqrtFn.sq : K → K)) (p : Problem K)
@@ -261,7 +263,7 @@ theorem hom_run_eq_homogenize (hsq : IsSqrt (SqrtFn.sq : K → K)) (p : Problem 
       out.sm.rows = p.m ∧ out.sm.cols = p.n ∧
       ∀ s c, s < p.m → c < p.n →
         Cov.denseRow (@SMat.rowEntries K ⟨0⟩ out.sm (s + 1)) (c + 1) = Env.mget h.At s c := by
-  obtain ⟨hwf, hdim, hcov, hmat, hnodup, hrows, hcols, hrhs, hrep⟩ := H
+  obtain ⟨hwf, hdim, hcov, hmat, hnodup, hrows, hcols, hrhs, hrep, _⟩ := H
   let _ : Cov.SqrtFn K := ⟨(SqrtFn.sq : K → K)⟩
   have hCwf : ∀ C ∈ Env.covMats p, C.WF := by
     intro C hC
